@@ -32,8 +32,6 @@ import (
 // largest parameters), later doublings at most double what is there: Expand / Pack over logn steps
 // accumulate ≤ n·B, each Split / Merge level adds B. 4·N·B is a sound over-estimate for all of them;
 // with uniform phases a wrong coefficient is off by ≈ Q, so the slack costs no discrimination.
-const sigPackCoeffDomain = "C04/RingPacking.Split|Merge/coefficient-domain-input/processed-as-NTT-values"
-
 var packOps = []string{"Split", "Merge", "Expand", "Extract", "Repack", "ExtractNaive+Repack", "Extract+RepackNaive"}
 
 func packScenario(logN, minLogN int, ch rk.Chain, bound int) engine.Scenario {
@@ -62,9 +60,7 @@ func packScenario(logN, minLogN int, ch rk.Chain, bound int) engine.Scenario {
 		// Split and Merge (hence Extract*, which splits first) work on NTT values unconditionally
 		// (SwitchCiphertextRingDegreeNTT, products with X^±1 in the NTT domain) and never look at
 		// ct.IsNTT, whereas Expand and Pack convert a coefficient-domain input: silent garbage.
-		if !inNTT && op != "Expand" && op != "Repack" {
-			known = sigPackCoeffDomain
-		}
+		coeffSplitMerge := !inNTT && op != "Expand" && op != "Repack"
 		sig := func(clause string) string {
 			if known != "" {
 				return known
@@ -297,7 +293,7 @@ func packScenario(logN, minLogN int, ch rk.Chain, bound int) engine.Scenario {
 			c.Fail(sig("panic"), "%s: panicked: %v", cfg, pan)
 			return
 		}
-		if err != nil && known == sigPackCoeffDomain {
+		if err != nil && coeffSplitMerge {
 			// Split / Merge work on NTT values: refusing a coefficient-domain operand with an error is
 			// the documented way out (the defect is processing it silently)
 			c.Cover("rejected", "RingPacking.Split|Merge/coefficient-domain-input")
@@ -307,7 +303,7 @@ func packScenario(logN, minLogN int, ch rk.Chain, bound int) engine.Scenario {
 			c.Fail(sig("error"), "%s: %v", cfg, err)
 			return
 		}
-		c.Count(len(results))
+		c.Count(len(results)) // (a coefficient-domain operand that is accepted is judged like any other)
 		for _, r := range results {
 			pr := *rpk.Parameters[r.logN].GetRLWEParameters()
 			if r.ct.LogN() != r.logN || r.ct.Level() != level {
